@@ -24,7 +24,7 @@ MANIFEST_CHECKS = {
         "level": "fault_enumeration",
         "technique": "deterministic simulation with fault injection: heap-wide frame condition over seeded histories, the catalogue of rejected calls and failing saves fired at every visited state, SimFS event trace for the destination file",
         "design_ref": "DESIGN.md s4 C13",
-        "text": "Seeded histories (2-12 state-changing steps quick, up to 30 thorough) over a heap of aliasing tiers, textgrids, shared entry lists and SimFS files; after every state-changing step the catalogue of failing mutator calls (invalid option, collision in error mode, degenerate/malformed/None entry, non-string label aimed at a collider, missing entry/tier, name clash, span change under reportingMode='error', wrong index type, non-tier argument), of copy-returning operations and queries with fresh (also invalid) arguments, and of failing saves (bad format / reportingMode / minimumIntervalLength, min/max overrides that cut entries, invalid textgrid under 'error') against a pre-existing destination (random bytes, empty file, or an earlier save) is fired at live objects (quick: seeded 40% subset on 3 objects; thorough: everything on all objects). After every call the observation of EVERY live object, list argument and file is compared: no-mutation for copies/queries/saves (returned or raised), all-or-nothing for raised mutators, frame condition with identity-aware aliasing for successful mutators, event-level 'destination never opened/truncated/written/unlinked/renamed' and 'no other file created' for failed saves, overwrite-vs-fresh equality for successful saves, plain-argument immutability; and at the end of every run the history is re-executed WITHOUT the probes and must reach the same states (twin execution: failed calls and queries must leave no hidden state that changes later results). Enumeration is of the fault catalogue per visited state; the states themselves are sampled.",
+        "text": "Seeded histories (2-12 state-changing steps quick, up to 30 thorough) over a heap of aliasing tiers, textgrids, shared entry lists and SimFS files; after every state-changing step the catalogue of failing mutator calls (invalid option, collision in error mode, degenerate/malformed/None entry, non-string label aimed at a collider, missing entry/tier, name clash, span change under reportingMode='error', wrong index type, non-tier argument), of copy-returning operations and queries with fresh (also invalid) arguments, and of failing saves (bad format / reportingMode / minimumIntervalLength, min/max overrides that cut entries, invalid textgrid under 'error') against a pre-existing destination (random bytes, empty file, or an earlier save) is fired at live objects (quick: seeded 40% subset on 3 objects; thorough: everything on all objects). After every call the observation of EVERY live object, list argument and file is compared: no-mutation for copies/queries/saves (returned or raised), all-or-nothing for raised mutators, frame condition with identity-aware aliasing for successful mutators, event-level 'destination never opened/truncated/written/unlinked/renamed' and 'no other file created' for failed saves, overwrite-vs-fresh equality for successful saves, plain-argument immutability, freshness of query results (no mutable container handed out twice); and at the end of every run the history is re-executed WITHOUT the probes and must reach the same states (twin execution: failed calls and queries must leave no hidden state that changes later results). Enumeration is of the fault catalogue per visited state; the states themselves are sampled.",
         "note": "Trusted: the observation function (public surface: names, order, entries typed+exact incl. entry class, spans; file bytes and directory listing) and SimFS (raw bytes, stat/remove/rename/listdir) with its event trace. Injected device errors (ENOSPC/EIO/EACCES) are observations only, outside the property's listed failure causes. Tier objects shared by identity between textgrids are legitimate and followed by `is`. Generators only read attributes; every call into praatio is a recorded step.",
     },
     "C12": {
